@@ -392,6 +392,11 @@ def wiring(ctx: Any) -> List[Ob]:
             p1, o1 = lf.comparison(prog, rdy.module, a, lambda x: 'N' if isinstance(x, ast.Call) and norm(x.func) == 'len' else None)
             p2, o2 = lf.comparison(prog, rdy.module, expand(rdy, b), _tsym({'send_before': 'BEFORE'}))
             ok_h = lf.same_cmp((p1, o1), lf.parse_cmp('1 - N < 0')) and lf.same_cmp((p2, o2), lf.parse_cmp('NOW - BEFORE < 0')) and any(isinstance(x, ast.Return) for x in ifs[0].body)
+            # ... the deadline of the FIRST group (the queue is ordered by send time: the first group is the one that must go
+            # first), in the test and in the time the flush is re-armed for
+            me_r = rdy.params[0]
+            reads = [x for e_ in [expand(rdy, b)] + [expand(rdy, c_.args[0]) for c_ in head] for x in ast.walk(e_) if isinstance(x, ast.Attribute) and x.attr == 'send_before']
+            ok_h = ok_h and bool(reads) and all(isinstance(x.value, ast.Subscript) and self_attr(x.value.value, me_r) == 'queue' and prog.try_fold(rdy.module, x.value.slice) == (True, 0) for x in reads)
         except lf.NotLinear:
             pass
     obs.append(ob(R, rdy, ifs[0].test if ifs else 'if len(queue) > 1 and queue[0].send_before > now', 'while more than one group is queued the flush waits until the first group must go (maximum aggregation), never beyond its send-before deadline', ok_h))
